@@ -662,9 +662,10 @@ pub fn explore_batch(prop: &dyn Property, tier: Tier, seed: u64, runs: u64, nwor
                     };
                     prop.explore(&mut rng, tier, &mut ex);
                     let mut g = results.lock().unwrap();
-                    if !ex.fails.is_empty() {
+                    if ex.fails.iter().any(|(_, f)| f.known.is_none()) {
                         // enough evidence of a violation: no need to finish the batch
-                        let failing_runs = g.iter().filter(|(_, e)| !e.fails.is_empty()).count();
+                        // (failures matching a known-finding classifier never stop a batch)
+                        let failing_runs = g.iter().filter(|(_, e)| e.fails.iter().any(|(_, f)| f.known.is_none())).count();
                         if failing_runs >= 200 {
                             stop.store(true, Ordering::Relaxed);
                         }
